@@ -20,7 +20,10 @@ GEN = ["CCOC(C)=O", "CC(=O)NCC", "CCSC(C)=O", "CCOCC", "CCSCC", "CC[Si](C)(C)C",
        "CC(=O)Oc1ccccc1", "c1ccccc1OC", "CC(C)(C)OC(=O)NCC", "CCNC(=O)OCC", "NCC(=O)O", "CC(O)CN", "FC(F)(F)CO", "CC#N",
        "C=CCOC(C)=O", "CC(=O)N(C)C", "CS(C)=O", "CCS(=O)(=O)CC", "COc1ccc(Br)cc1", "CCn1cccc1", "CC[NH2+]CC", "C[SiH2]CC",
        "CC[N+](C)(C)C", "CCOC(=O)OCC", "CC(=O)SC", "CNC(=O)N", "OCC(O)CO", "CC(C)OS(C)(=O)=O", "ClCCBr", "C[Zn]C", "CCO[Si](C)(C)C",
-       "CCNN", "CC=NO", "COO", "CCOOC", "CN=[N+]=[N-]", "CC(=O)ON", "c1ccncc1CO", "CC(=O)OCC(=O)OC"]
+       "CCNN", "CC=NO", "COO", "CCOOC", "CN=[N+]=[N-]", "CC(=O)ON", "c1ccncc1CO", "CC(=O)OCC(=O)OC",
+       # explicit (isotope-labelled) hydrogen atoms: atom count != heavy-atom count
+       "[2H]c1ccc(CC)cc1", "[2H]C([2H])([2H])OC(C)=O", "CC([2H])OC", "[3H]CCOC(C)=O", "[2H]OCC", "CC(=O)N([2H])CC",
+       "[2H]C([2H])([2H])C(=O)OCC", "[2H]c1ccccc1OC", "[13CH3]OC(C)=O", "[2H]C(C)(C)SC"]
 
 
 def ident_nostereo(mol):
